@@ -59,6 +59,12 @@ pub struct HScript {
     /// the script appends its own `<name>.unregister` when the trigger asks for it
     #[serde(default)]
     pub self_stop: bool,
+    /// explicit appends use string / record / binary input in turn
+    #[serde(default)]
+    pub rich: bool,
+    /// the script reports which contexts `.cat` shows it
+    #[serde(default)]
+    pub cat_probe: bool,
 }
 
 #[derive(Serialize, Deserialize, Clone, Debug, PartialEq)]
@@ -158,7 +164,16 @@ pub fn handler_script(name: &str, s: &HScript, other_ctx: &str, after_id: Option
         if s.fail_at == Some(k) {
             out.push_str(&format!("    if $fail {{ error make {{msg: \"boom{}\"}} }}\n", k));
         }
-        let mut line = format!("    \"e{}\" | .append {}.x{}", k, name, k);
+        let input = if !s.rich {
+            format!("\"e{}\"", k)
+        } else {
+            match k % 3 {
+                0 => format!("\"e{}\"", k),
+                1 => format!("{{a: {}, b: \"r\"}}", k),
+                _ => format!("0x[0{} ff 00]", k),
+            }
+        };
+        let mut line = format!("    {} | .append {}.x{}", input, name, k);
         if *with_meta {
             line.push_str(&format!(" --meta {{k: {}, handler_id: \"spoofed\"}}", k));
         }
@@ -173,6 +188,9 @@ pub fn handler_script(name: &str, s: &HScript, other_ctx: &str, after_id: Option
     }
     if s.fail_at == Some(s.appends.len()) {
         out.push_str(&format!("    if $fail {{ error make {{msg: \"boom{}\"}} }}\n", s.appends.len()));
+    }
+    if s.cat_probe {
+        out.push_str(&format!("    (.cat | each {{|f| $f.context_id}} | uniq | sort | str join \",\") | .append {}.catprobe\n", name));
     }
     if s.self_stop {
         out.push_str(&format!("    if ($frame.meta?.selfstop? | default false) {{ \"bye\" | .append {}.unregister }}\n", name));
@@ -918,7 +936,20 @@ impl Run {
                 let mut want: Vec<(String, Option<TTL>, Vec<u8>, bool)> = Vec::new();
                 for (k, (_, ttl, _)) in inst.script.appends.iter().enumerate() {
                     let t = ttl.as_ref().and_then(|x| xs::store::parse_ttl(x).ok());
-                    want.push((format!("{}.x{}", name, k), t, format!("e{}", k).into_bytes(), false));
+                    let content: Vec<u8> = if !inst.script.rich {
+                        format!("e{}", k).into_bytes()
+                    } else {
+                        match k % 3 {
+                            0 => format!("e{}", k).into_bytes(),
+                            1 => format!("{{\"a\":{},\"b\":\"r\"}}", k).into_bytes(),
+                            _ => vec![k as u8, 0xff, 0x00],
+                        }
+                    };
+                    want.push((format!("{}.x{}", name, k), t, content, false));
+                }
+                if inst.script.cat_probe {
+                    // `.cat` inside the script shows the handler's own context only
+                    want.push((format!("{}.catprobe", name), None, inst.ctx.to_string().into_bytes(), false));
                 }
                 let selfstop = inst.script.self_stop && trig.meta.as_ref().and_then(|m| m.get("selfstop")).and_then(|v| v.as_bool()).unwrap_or(false);
                 if selfstop {
@@ -943,6 +974,12 @@ impl Run {
                     }
                     if !*is_ret {
                         if self.content(f).as_deref() != Some(content.as_slice()) {
+                            if f.topic.ends_with(".catprobe") {
+                                return violation(
+                                    "ctx/leak:nu-cat",
+                                    format!("{}: `.cat` inside its script showed frames of contexts [{}], its own context is {}", desc, String::from_utf8_lossy(&self.content(f).unwrap_or_default()), short_ctx(&inst.ctx)),
+                                );
+                            }
                             return violation("output/content", format!("{}: content of {} is not {:?}", desc, fmt_frame(f), String::from_utf8_lossy(content)));
                         }
                     } else {
@@ -1573,6 +1610,8 @@ fn gen_hscript(rng: &mut Rng, prop: &str) -> HScript {
         ret_ttl: if rng.chance(25) { Some(rng.pick(&["head:1", "head:3", "ephemeral", "time:60000"]).to_string()) } else { None },
         fail_at,
         self_stop: rng.chance(if prop == "C16" || prop == "C14" { 30 } else { 10 }),
+        rich: rng.chance(if prop == "C15" || prop == "C10" { 50 } else { 15 }),
+        cat_probe: rng.chance(if prop == "C06" { 60 } else { 20 }),
         invalid: if rng.chance(if prop == "C16" { 18 } else { 5 }) {
             Some(match rng.below(4) {
                 0 => Invalid::ParseError,
